@@ -70,6 +70,13 @@ class LSub3(LSub):
         self.k = k
 
 
+class LEnc:
+    """source of a link whose value may be None (C15)"""
+
+    def __init__(self, width: Optional[int] = None, depth: int = 2):
+        self.width, self.depth = width, depth
+
+
 # --- plain functions for Callable-typed arguments (vf/gen/kinds.py) -------------------------------------------------------
 def fn_a(x: int) -> int:
     return x
